@@ -96,6 +96,37 @@ Example ex_colony :
       (snd (sys_run (fst (sys_run sys1 others1)) [SOp 0 (OFilter x_Secret)])) = [(0%nat, true, 0)].
 Proof. vm_compute. auto. Qed.
 
+(* c10_learned_active_until_named: key=\S+ (CRITICAL) and key=\s+ (SUSPICIOUS)
+   are two texts with the same lower() and different meanings.  Learning the
+   second, importing "SECRET" (a case variant of the learned "secret") and
+   forgetting "KEY=\S+" (never learned) name neither the first nor "secret":
+   "key=abc" is still refused at level 3 by the first alone, "key= " is
+   reported at level 1 by the second alone, and "my secret" is matched by both
+   spellings of secret. *)
+Definition k_S := [107;101;121;61;92;83;43].          (* key=\S+ *)
+Definition k_s := [107;101;121;61;92;115;43].         (* key=\s+ *)
+Definition k_KS := [75;69;89;61;92;83;43].            (* KEY=\S+ *)
+Definition g_S := mkSig 20 k_S (KRx (SeqL [Lit [107;101;121;61]; Plus (CSet false [ICat CSpace true])])) 3.
+Definition g_s := mkSig 21 k_s (KRx (SeqL [Lit [107;101;121;61]; Plus (CSet false [ICat CSpace false])])) 1.
+Definition s_SECRET := mkSig 22 [83;69;67;82;69;84] (KSub [83;69;67;82;69;84]) 1.   (* "SECRET" *)
+Definition ops_key := [OLearn g_s; OImport [s_SECRET]; OForget k_KS; OFilter x_hello; OSetThreshold 3].
+Definition x_keyabc := [107;101;121;61;97;98;99].     (* "key=abc" *)
+Definition x_keysp := [107;101;121;61;32].            (* "key= " *)
+Example ex_key_case :
+  let st1 := fst (mrun cfg0 st0 [OLearn g_S; OLearn s_learn]) in
+  let st2 := fst (mrun cfg0 st1 ops_key) in
+  k_S <> k_s /\ lower py_cc k_S = lower py_cc k_s /\ lower py_cc k_KS = lower py_cc k_S /\
+  In g_S (m_learned st1) /\
+  forallb (fun op => negb (names_key cfg0 (s_key g_S) op)) ops_key = true /\
+  forallb (fun op => negb (names_key cfg0 (s_key s_learn) op)) ops_key = true /\
+  map s_id (m_learned st2) = [20; 7; 21; 22] /\
+  (let r := snd (mfilter cfg0 st2 x_keyabc) in (r_kind r, r_allowed r, r_level r, map s_id (r_matched r)) = (Scanned, false, 3, [20])) /\
+  (let r := snd (mfilter cfg0 st2 x_keysp) in (r_kind r, r_allowed r, r_level r, map s_id (r_matched r)) = (Scanned, true, 1, [21])) /\
+  (let r := snd (mfilter cfg0 st2 x_secret) in (r_kind r, r_level r, map s_id (r_matched r)) = (Scanned, 2, [7; 22])) /\
+  (* naming the exact text does replace / delete *)
+  map s_id (m_learned (fst (mrun cfg0 st2 [OLearn (mkSig 23 k_S (s_kind g_S) 0); OForget k_s]))) = [23; 7; 22].
+Proof. vm_compute. repeat split; auto. discriminate. Qed.
+
 (* c10_rate_bound: limit 2; three requests in the same instant, the third is
    rate-limited; 59.5 s later still limited; at exactly 60 s admitted again *)
 Example ex_rate :
